@@ -76,7 +76,7 @@ def oracleLifecycle (evs : List SigEv) : Option String :=
     * every burst is reported within 250 ms of the end of its audio (burst-termination latency);
     * a StartOfMessage comes no later than 1.5 s after the end of the last header burst's audio
       when the channel is then quiet (trailer starts later than that). -/
-def oracleSigC08 (rate : Nat) (spans : List (Nat × Nat)) (evs : List SigEv) : Option String :=
+def oracleSigC08With (somRule : Bool) (rate : Nat) (spans : List (Nat × Nat)) (evs : List SigEv) : Option String :=
   let burstTimes := evs.filterMap (fun e => match e with | .link t 'B' _ => some t | _ => none)
   let lateBurst := burstTimes.findSome? (fun t =>
     -- the audio span this burst belongs to: the last one that started before the event
@@ -96,13 +96,16 @@ def oracleSigC08 (rate : Nat) (spans : List (Nat × Nat)) (evs : List SigEv) : O
           if earlierSom then none
           else some s!"EndOfMessage at sample {t} was not reported by the call that assembled a burst"
       | .msg t (.som ..) =>
-        match spans with
-        | [_, _, h3, e1, _, _] =>
+        match somRule, spans with
+        | true, [_, _, h3, e1, _, _] =>
           if e1.1 > h3.2 + (3 * rate) / 2 ∧ t > h3.2 + (3 * rate) / 2 then
             some s!"StartOfMessage {((t - h3.2) * 1000) / rate} ms after the end of its last burst on a quiet channel (bound 1500 ms)"
           else none
-        | _ => none
+        | _, _ => none
       | _ => none)
+
+def oracleSigC08 (rate : Nat) (spans : List (Nat × Nat)) (evs : List SigEv) : Option String :=
+  oracleSigC08With true rate spans evs
 
 /-- C02 at signal level: one transmission with header presence mask `hm`, trailer mask `tm`
     (bit 4 = first burst); `lone`: no other burst is heard in the history window before the
@@ -127,6 +130,40 @@ def oracleSigC02 (h : List Byte) (hm tm : Nat) (lone : Bool) (msgs : List Out) :
     match soms, eoms with
     | [s], [e] => if s.t ≤ e.t then none else some "EndOfMessage reported before StartOfMessage"
     | _, _ => none
+
+/-- C08 on a sequence of transmissions.  `txs`: payload of every transmission; `spans`: (transmission
+    index, first sample, one-past-last sample) of every burst actually sent.  A header sent in at
+    least two bursts and followed by 1.5 s without any further burst audio must be reported no later
+    than 1.5 s after the end of its last burst; every EndOfMessage coincides with a burst event or
+    is the forced one; every burst is reported within 250 ms of the end of its audio. -/
+def oracleSigC08Seq (rate : Nat) (txs : List (List Byte)) (spans : List (Nat × Nat × Nat)) (evs : List SigEv) : Option String :=
+  match oracleSigC08With false rate (spans.map (fun s => (s.2.1, s.2.2))) evs with
+  | some e => some e
+  | none =>
+    (List.range txs.length).findSome? (fun i =>
+      let payload := txs.getD i []
+      let mine := spans.filter (fun s => s.1 == i)
+      if payload.take 4 == [78, 78, 78, 78] ∨ mine.length < 2 then none
+      else
+        match mine.getLast? with
+        | none => none
+        | some last =>
+          let endT := last.2.2
+          let quiet := spans.all (fun s => s.2.1 ≤ endT ∨ s.2.1 > endT + (3 * rate) / 2)
+          let reported := evs.any (fun e => match e with
+            | .msg t (.som text _ _) => text == payload ∧ t ≤ endT + (3 * rate) / 2
+            | _ => false)
+          -- a repeat of a text already reported within the dedup window is legitimately suppressed
+          let repeatOfEarlier := (List.range i).any (fun j => txs.getD j [] == payload)
+          if quiet ∧ !reported ∧ !repeatOfEarlier then
+            some s!"the header of transmission {i + 1} ({mine.length} bursts, channel then quiet) was not reported within 1.5 s of the end of its last burst"
+          else none)
+
+/-- C05 on a sequence: the reported messages whose text is one of the transmitted payloads form an
+    in-order subsequence of the transmissions (nothing twice, nothing out of order) -/
+def oracleSigC05Seq (txs : List (List Byte)) (evs : List SigEv) : Option String :=
+  let outs : List Out := evs.filterMap (fun e => match e with | .msg t m => some ⟨t, m⟩ | _ => none)
+  oracleC05 txs [] outs
 
 /-- C05 for a single transmission: at most one StartOfMessage and at most one EndOfMessage -/
 def oracleSigC05One (msgs : List Out) : Option String :=
